@@ -267,7 +267,7 @@ Lemma move_seg_lazy_ok file zeof startPos large payloadLen workLen st off size :
 Proof.
   intros Hpl Hfl [Hpos Hlen] Hin. unfold move_seg, is_lazy, mdat_lazy. cbn [lazyDataSize].
   replace (0 <? payloadLen) with true by lia.
-  replace (off <? 9223372036854775808) with true by lia.
+  unfold i64n. replace (off <? 9223372036854775808) with true by lia.
   unfold rs_seek_start. replace (Z.of_N off <? 0)%Z with false by lia. cbn [rbind].
   rewrite N2Z.id.
   destruct (workLen =? 0) eqn:E.
